@@ -486,6 +486,26 @@ fn fdt_packets(id: u32, xml: &str) -> Vec<Vec<u8>> {
         .collect()
 }
 
+fn crc32(data: &[u8]) -> u32 {
+    let mut crc = 0xffff_ffffu32;
+    for &b in data {
+        crc ^= b as u32;
+        for _ in 0..8 {
+            crc = if crc & 1 != 0 { (crc >> 1) ^ 0xedb8_8320 } else { crc >> 1 };
+        }
+    }
+    !crc
+}
+
+fn adler32(data: &[u8]) -> u32 {
+    let (mut a, mut b) = (1u32, 0u32);
+    for &x in data {
+        a = (a + x as u32) % 65521;
+        b = (b + a) % 65521;
+    }
+    (b << 16) | a
+}
+
 fn fdt_xml(files: &[String]) -> String {
     format!(
         "<?xml version=\"1.0\" encoding=\"UTF-8\"?><FDT-Instance xmlns=\"urn:IETF:metadata:2005:FLUTE:FDT\" Expires=\"4000000000\">{}</FDT-Instance>",
@@ -1161,7 +1181,9 @@ pub fn run(ctx: &mut Ctx, eng: &mut dyn Engine) {
                     "<File TOI=\"{}\" Content-Location=\"file:///o0\" Content-Length=\"{}\" Transfer-Length=\"{}\" Content-Encoding=\"{}\" FEC-OTI-FEC-Encoding-ID=\"0\" FEC-OTI-Maximum-Source-Block-Length=\"4\" FEC-OTI-Encoding-Symbol-Length=\"16\"/>",
                     o.toi, size, tl - k, cenc_name
                 )]);
-                let mut h: Vec<Option<Vec<u8>>> = fdt_packets(7, &xml).into_iter().map(Some).collect();
+                // a truncated stream must never be completed (seeded change C09-3: the error of the final decoder flush swallowed)
+                let mut h: Vec<Option<Vec<u8>>> = vec![Some(format!("#expect {} n C09:complete-after-decoder-error", o.toi).into_bytes())];
+                h.extend(fdt_packets(7, &xml).into_iter().map(Some));
                 for raw in &sess.pkts {
                     if alc::parse_alc_pkt(raw).map(|p| p.lct.toi == o.toi).unwrap_or(false) {
                         h.push(Some(raw.clone()));
@@ -1231,6 +1253,111 @@ pub fn run(ctx: &mut Ctx, eng: &mut dyn Engine) {
             let cc = CaseCfg { expect_mode: None, ..Default::default() };
             r.ctx.count("fdt-huge-tl");
             r.case("fdt-huge-tl", &cc, &sess, &[], &h, false);
+        }
+    }
+
+    // ---- 18. HUGE object (Transfer-Length 2^32 + 40, 2^33 + 40 announced by the FDT, No-Code E=16 B=4), only the first packets are
+    //           delivered (block 0 complete, nothing else): the object must NOT be completed (seeded change C03-5: u32 byte counters
+    //           in BlockWriter, complete after transfer_length mod 2^32 bytes)
+    for tl in [(1u64 << 32) + 40, (1u64 << 33) + 40] {
+        let oti = scheme_oti(0, 16, 4, 0, true);
+        let spec = ObjSpec { content: content(&mut rng, 200), cenc: Cenc::Null, inband_cenc: false, md5: false, oti: None, transfers: 1 };
+        let sess = match make_session(&oti, &[spec], 1, 1) {
+            Some(s) => s,
+            None => continue,
+        };
+        let o = sess.objs[0].clone();
+        let xml = fdt_xml(&[format!(
+            "<File TOI=\"{}\" Content-Location=\"file:///o0\" Content-Length=\"{}\" Transfer-Length=\"{}\" FEC-OTI-FEC-Encoding-ID=\"0\" FEC-OTI-Maximum-Source-Block-Length=\"4\" FEC-OTI-Encoding-Symbol-Length=\"16\"/>",
+            o.toi, tl, tl
+        )]);
+        for with_close in [false, true] {
+            let mut h: Vec<Option<Vec<u8>>> = vec![Some(format!("#expect {} n C03:complete-before-all-bytes", o.toi).into_bytes())];
+            h.extend(fdt_packets(7, &xml).into_iter().map(Some));
+            for raw in &sess.pkts {
+                if let Ok(p) = alc::parse_alc_pkt(raw) {
+                    if p.lct.toi == o.toi && (with_close || !p.lct.close_object) {
+                        h.push(Some(raw.clone()));
+                    }
+                }
+            }
+            h.push(None);
+            let cc = CaseCfg { expect_mode: None, ..Default::default() };
+            r.ctx.count("huge-object");
+            r.case("huge-object", &cc, &sess, &[], &h, false);
+        }
+    }
+
+    // ---- 19. content-encoded object whose compressed stream is ONE STORED deflate block (hand-made gzip / zlib / raw deflate stream,
+    //           carried by the packets of a cenc-Null session; encoding, lengths and Content-MD5 announced by a hand-written FDT):
+    //           unaltered (must complete with the data), and with ONE BIT of the stored data flipped - the decoded length is unchanged,
+    //           gzip CRC32 / zlib Adler-32 / the Content-MD5 are the only things that can notice (seeded change C03-7)
+    for &cenc in &[Cenc::Gzip, Cenc::Zlib, Cenc::Deflate] {
+        for size in [50usize, 300] {
+            let data = content(&mut rng, size);
+            let stored: Vec<u8> = {
+                let l = size as u16;
+                let mut v = vec![0x01, (l & 0xff) as u8, (l >> 8) as u8, (!l & 0xff) as u8, (!l >> 8) as u8];
+                v.extend_from_slice(&data);
+                v
+            };
+            let (stream, data_off): (Vec<u8>, usize) = match cenc {
+                Cenc::Gzip => {
+                    let mut v = vec![0x1f, 0x8b, 8, 0, 0, 0, 0, 0, 0, 0xff];
+                    v.extend_from_slice(&stored);
+                    v.extend_from_slice(&crc32(&data).to_le_bytes());
+                    v.extend_from_slice(&(size as u32).to_le_bytes());
+                    (v, 15)
+                }
+                Cenc::Zlib => {
+                    let mut v = vec![0x78, 0x01];
+                    v.extend_from_slice(&stored);
+                    v.extend_from_slice(&adler32(&data).to_be_bytes());
+                    (v, 7)
+                }
+                _ => (stored.clone(), 5),
+            };
+            let cenc_name = match cenc {
+                Cenc::Gzip => "gzip",
+                Cenc::Zlib => "zlib",
+                _ => "deflate",
+            };
+            let md5_b64 = { use base64::Engine; base64::engine::general_purpose::STANDARD.encode(md5::compute(&data).0) };
+            for flip in [None, Some(size / 2), Some(size - 1)] {
+                let mut stream2 = stream.clone();
+                let mut data2 = data.clone();
+                if let Some(i) = flip {
+                    stream2[data_off + i] ^= 0x10;
+                    data2[i] ^= 0x10;
+                }
+                let oti = scheme_oti(0, 16, 4, 0, true);
+                let spec = ObjSpec { content: stream2.clone(), cenc: Cenc::Null, inband_cenc: false, md5: false, oti: None, transfers: 1 };
+                let sess = match make_session(&oti, &[spec], 1, 1) {
+                    Some(s) => s,
+                    None => continue,
+                };
+                let o = sess.objs[0].clone();
+                let xml = fdt_xml(&[format!(
+                    "<File TOI=\"{}\" Content-Location=\"file:///o0\" Content-Length=\"{}\" Transfer-Length=\"{}\" Content-Encoding=\"{}\" Content-MD5=\"{}\" FEC-OTI-FEC-Encoding-ID=\"0\" FEC-OTI-Maximum-Source-Block-Length=\"4\" FEC-OTI-Encoding-Symbol-Length=\"16\"/>",
+                    o.toi, size, stream2.len(), cenc_name, md5_b64
+                )]);
+                // decompressor table of the driver: the (altered) stream decodes to the (altered) data; gzip / zlib then fail their trailer
+                let bad = flip.is_some() && cenc != Cenc::Deflate;
+                let mut h: Vec<Option<Vec<u8>>> = vec![
+                    Some(format!("#zmap {} {}{}", hex(&stream2), hex(&data2), if bad { " bad" } else { "" }).into_bytes()),
+                    Some(format!("#expect {} {} {}", o.toi, if flip.is_some() { 'm' } else { 'g' }, hex(&data)).into_bytes()),
+                ];
+                h.extend(fdt_packets(7, &xml).into_iter().map(Some));
+                for raw in &sess.pkts {
+                    if alc::parse_alc_pkt(raw).map(|p| p.lct.toi == o.toi).unwrap_or(false) {
+                        h.push(Some(raw.clone()));
+                    }
+                }
+                h.push(None);
+                let cc = CaseCfg { expect_mode: None, ..Default::default() };
+                r.ctx.count(&format!("cenc-stored-flip:{}", if flip.is_some() { "flipped" } else { "clean" }));
+                r.case("cenc-stored-flip", &cc, &sess, &[], &h, false);
+            }
         }
     }
 
